@@ -157,6 +157,12 @@ structure StoreRaw where
   err : Option StoreErr
   deriving DecidableEq, Repr, Inhabited
 
+/-- `_times == [] or _times[-1] < time`. -/
+def okToAppend (ts : List Rat) (t : Rat) : Bool :=
+  match ts.getLast? with
+  | none => true
+  | some l => decide (l < t)
+
 /-- `Results._store_raw`, statement by statement (a raise keeps the mutations done so far). -/
 def storeRaw (s : Store) (uuid tag : Nat) (time : Rat) (value : Int) : StoreRaw :=
   -- _times = self._times.setdefault(uuid, [])
@@ -168,8 +174,7 @@ def storeRaw (s : Store) (uuid tag : Nat) (time : Rat) (value : Int) : StoreRaw 
     -- self._tagmap[tag] = uuid
     let s2 : Store := { s1 with tagmap := aset tag uuid s1.tagmap }
     -- assert _times == [] or _times[-1] < time
-    if !(ts.isEmpty || (match ts.getLast? with | some l => decide (l < time) | none => true)) then
-      ⟨s2, some .assertion⟩
+    if !(okToAppend ts time) then ⟨s2, some .assertion⟩
     else
       -- _times.append(time); self._results.setdefault(uuid, []).append(value)
       let vs := (alookup uuid s2.vals).getD []
@@ -189,11 +194,16 @@ def findByTag (s : Store) (tag : Nat) : Except StoreErr Nat :=
 /-- `get_result_times` (after `_find_uuid`). -/
 def getTimes (s : Store) (uuid : Nat) : List Rat := (alookup uuid s.times).getD []
 
+/-- `list.index(time)`. -/
+def idxOfTime (t : Rat) : List Rat → Option Nat
+  | [] => none
+  | x :: xs => if x = t then some 0 else (idxOfTime t xs).map (· + 1)
+
 /-- `get_result` (after `_find_uuid`): `ind = times.index(time); results[ind]`. -/
 def getResult (s : Store) (uuid : Nat) (time : Rat) : Except StoreErr Int :=
   match alookup uuid s.times, alookup uuid s.vals with
   | some ts, some vs =>
-    match ts.idxOf? time with
+    match idxOfTime time ts with
     | some i => match vs[i]? with
       | some v => .ok v
       | none => .error .value
